@@ -74,6 +74,8 @@ class Scene:
         # Store solver parameters
         solver_params = self._input_dict.get("solver", {})
         self._solver_type = solver_params.get("type", "nonlinear")
+        if self._solver_type not in ["linear", "nonlinear", "scipy_fsolve"]:
+            raise IOError("{0} is not a recognized solver type.".format(self._solver_type))
         self._solver_convergence = solver_params.get("convergence", 1e-10)
         self._solver_relaxation = solver_params.get("relaxation", 1.0)
         self._max_solver_iterations = solver_params.get("max_iterations", 100)
